@@ -32,7 +32,7 @@ class C08Run(E2Run):
     prop = "C08"
 
     def profile(self) -> Dict:
-        return {"topologies": ["routed", "routed2", "routed2", "firewall", "lan", "wireless", "dualgw"], "max_hosts_per_subnet": 2, "tight_links": 0.0, "random_acl_rules": (0, 2), "permit_all_rule": 0.85, "l2_loop": 0.5, "avoid": ["listen_on_ports", "tight_links"]}
+        return {"topologies": ["routed", "routed2", "routed2", "firewall", "firewall2", "lan", "wireless", "dualgw"], "max_hosts_per_subnet": 2, "tight_links": 0.0, "random_acl_rules": (0, 2), "permit_all_rule": 0.85, "l2_loop": 0.5, "avoid": ["listen_on_ports", "tight_links"]}
 
     def tweak_scenario(self):
         r = self.ops_rng
